@@ -97,6 +97,8 @@ def fastcopy(x):
     (their fields are immutable ints)."""
     if isinstance(x, dict):
         return {k: fastcopy(v) for k, v in x.items()}
+    if isinstance(x, tuple) and hasattr(x, "_fields"):      # namedtuple
+        return type(x)(*(fastcopy(v) for v in x))
     if isinstance(x, (list, tuple)):
         return type(x)(fastcopy(v) for v in x)
     if isinstance(x, (set, frozenset)):
